@@ -23,7 +23,7 @@ theorem alloc_shape {s : Sig} (had : sigAdequate s = true) (hop : s.op = .alloc)
       (R = .borrow e.var m :: e.self ∨ (R = e.param ∧ s.ownerK.hasParam = true)) ∧
       (s.recv = .value → s.ownerK = .coll ∧ R = e.param) ∧ (s.ownerK = .coll → s.recv = .value) ∧
       (s.ownerK = .bump ∨ s.ownerK = .scope ∨ s.ownerK = .trScope ∨ s.ownerK = .trTypedScope ∨
-       s.ownerK = .trMutTypedScope ∨ s.ownerK = .coll) := by
+       s.ownerK = .trMutTypedScope ∨ s.ownerK = .coll ∨ s.ownerK = .trAllocator) := by
   unfold sigAdequate at had
   rw [hop] at had
   simp only [Bool.and_eq_true, Bool.or_eq_true, bne_iff_ne, ne_eq, beq_iff_eq] at had
@@ -49,13 +49,14 @@ theorem alloc_shape {s : Sig} (had : sigAdequate s = true) (hop : s.op = .alloc)
       rcases hcoll with hne | hv
       · exact absurd hc hne
       · exact hv
-    · rcases hown with ((((h1 | h1) | h1) | h1) | h1) | h1
+    · rcases hown with (((((h1 | h1) | h1) | h1) | h1) | h1) | h1
       · exact Or.inl h1
       · exact Or.inr (Or.inl h1)
       · exact Or.inr (Or.inr (Or.inl h1))
       · exact Or.inr (Or.inr (Or.inr (Or.inl h1)))
       · exact Or.inr (Or.inr (Or.inr (Or.inr (Or.inl h1))))
-      · exact Or.inr (Or.inr (Or.inr (Or.inr (Or.inr h1))))
+      · exact Or.inr (Or.inr (Or.inr (Or.inr (Or.inr (Or.inl h1)))))
+      · exact Or.inr (Or.inr (Or.inr (Or.inr (Or.inr (Or.inr h1)))))
   · cases hlts
 
 /-- which receivers a method of the given owner applies to (given that no `&mut Bump` scope impl exists) -/
@@ -252,7 +253,7 @@ theorem call_alloc {t : Table} (hok : sigOK t = true) {Γ Γ' Γ1 : SEnv} {σ : 
   -- the receiver allocates; if it can end epochs itself, it is an inherent `Bump` method (which returns `'_`)
   have hfacts : e.kind.allocates = true ∧ e.isHandle = true ∧ e.kind ≠ .guard ∧
       ((e.kind = .bump ∧ e.acc ≠ .shrRef) → sig.ownerK.hasParam = false) := by
-    rcases hown with ho | ho | ho | ho | ho | ho <;> rw [ho] at hkinds <;> simp only [ownerKinds] at hkinds
+    rcases hown with ho | ho | ho | ho | ho | ho | ho <;> rw [ho] at hkinds <;> simp only [ownerKinds] at hkinds
     · rw [hkinds, ho]; simp [Kind.allocates, Entry.isHandle, hkinds, Owner.hasParam]
     · rcases hkinds with hk | hk | hk <;> simp [hk, Kind.allocates, Entry.isHandle]
     · simp [hkinds, Kind.allocates, Entry.isHandle]
@@ -261,6 +262,7 @@ theorem call_alloc {t : Table} (hok : sigOK t = true) {Γ Γ' Γ1 : SEnv} {σ : 
     · rcases hkinds with hk | hk | hk | ⟨hk, ha⟩ <;> simp [hk, Kind.allocates, Entry.isHandle]
       intro h; exact absurd ha h
     · simp [hkinds, Kind.allocates, Entry.isHandle]
+    · rcases hkinds with hk | hk <;> simp [hk, ho, Kind.allocates, Entry.isHandle, Owner.hasParam]
   rcases hfacts with ⟨hallocs, heH, hng, hbumpender⟩
   have hlive := ht.2.2.2.1 heH
   have hk1 : r.kind ≠ .val := by rw [ht.1]; simp [Entry.isHandle] at heH; exact heH.1
